@@ -48,10 +48,10 @@ func emptyAlt() SAlt         { return SAlt{Empty: true} }
 func errAlt(syms ...Sym) SAlt { return SAlt{Err: true, Body: syms} }
 
 // Families is the list of template families GenSyntax knows.
-var Families = []string{"expr", "list", "stmts", "brackets", "random", "lr1notlalr", "nullable", "long", "random", "random", "nulllist", "nulllist", "nulltails", "lr2", "wide", "firstchain", "errorder", "optafter", "errdeep", "deadnt"}
+var Families = []string{"expr", "list", "stmts", "brackets", "random", "lr1notlalr", "nullable", "long", "random", "random", "nulllist", "nulllist", "nulltails", "lr2", "wide", "firstchain", "errorder", "optafter", "errdeep", "deadnt", "lafirst"}
 
 // BoundaryFamilies are shapes near the LR(1) boundary (used on top of Families by C04).
-var BoundaryFamilies = []string{"lr1notlalr", "cyclic", "rr1la", "nullconflict", "nullable", "random", "expr", "nulltails", "nulllist", "lr2"}
+var BoundaryFamilies = []string{"lr1notlalr", "cyclic", "rr1la", "nullconflict", "nullable", "random", "expr", "nulltails", "nulllist", "lr2", "lafirst", "lafirst"}
 
 // GenSyntax builds a random syntax part (no actions, no lexical part).
 func GenSyntax(r *rand.Rand, o SynGenOpts) *Grammar {
@@ -92,6 +92,8 @@ func GenSyntax(r *rand.Rand, o SynGenOpts) *Grammar {
 		g = s.errDeep()
 	case "deadnt":
 		g = s.deadNT()
+	case "lafirst":
+		g = s.laFirst()
 	case "wide":
 		g = s.wide()
 	case "cyclic":
@@ -295,11 +297,21 @@ func (s *synGen) nullList() *Grammar {
 	} else {
 		l.Alts = append(l.Alts, alt(append(append([]Sym{}, elem...), nt("L"))...)) // right recursive
 	}
-	l.Alts = append(l.Alts, emptyAlt())
+	var viaNT []*NTDef
+	switch s.r.Intn(4) {
+	case 0: // nullable only through another nonterminal
+		l.Alts = append(l.Alts, alt(nt("M")))
+		viaNT = []*NTDef{{Head: "M", Alts: []SAlt{emptyAlt()}}}
+	case 1: // ... through a chain of two
+		l.Alts = append(l.Alts, alt(nt("M")))
+		viaNT = []*NTDef{{Head: "M", Alts: []SAlt{alt(nt("N"))}}, {Head: "N", Alts: []SAlt{emptyAlt()}}}
+	default:
+		l.Alts = append(l.Alts, emptyAlt())
+	}
 	if s.r.Intn(2) == 0 {
 		l.Alts[0], l.Alts[1] = l.Alts[1], l.Alts[0]
 	}
-	g.NTs = []*NTDef{top, h, l}
+	g.NTs = append([]*NTDef{top, h, l}, viaNT...)
 	for _, a := range top.Alts {
 		for _, sy := range a.Body {
 			if sy.Kind == SNT && sy.Name == "T" {
@@ -399,6 +411,61 @@ func splitHeads(r *rand.Rand, g *Grammar) {
 		}
 		g.NTs = append(g.NTs[:at:at], append([]*NTDef{tail}, g.NTs[at:]...)...)
 	}
+}
+
+// laFirst: whether two reductions of the same handle compete depends on a look-ahead that comes
+// only from FIRST of a (directly or indirectly) nullable list that follows: S : P L | Q L z.
+func (s *synGen) laFirst() *Grammar {
+	s.pickTerminals(6)
+	t := s.terms
+	l := &NTDef{Head: "L"}
+	elem := []Sym{t[1]}
+	if s.r.Intn(3) == 0 {
+		elem = []Sym{t[1], t[2]}
+	}
+	if s.r.Intn(4) > 0 {
+		l.Alts = append(l.Alts, alt(append([]Sym{nt("L")}, elem...)...))
+	} else {
+		l.Alts = append(l.Alts, alt(append(append([]Sym{}, elem...), nt("L"))...))
+	}
+	var via []*NTDef
+	switch s.r.Intn(3) {
+	case 0:
+		l.Alts = append(l.Alts, emptyAlt())
+	case 1:
+		l.Alts = append(l.Alts, alt(nt("M")))
+		via = []*NTDef{{Head: "M", Alts: []SAlt{emptyAlt()}}}
+	default:
+		l.Alts = append(l.Alts, alt(nt("M")))
+		via = []*NTDef{{Head: "M", Alts: []SAlt{alt(nt("N")), alt(t[5])}}, {Head: "N", Alts: []SAlt{emptyAlt()}}}
+	}
+	if s.r.Intn(2) == 0 {
+		l.Alts[0], l.Alts[1] = l.Alts[1], l.Alts[0]
+	}
+	pBody, qBody := []Sym{t[0]}, []Sym{t[0]}
+	switch s.r.Intn(4) {
+	case 0:
+		qBody = []Sym{t[4]} // distinct handles: never a conflict
+	case 1:
+		pBody, qBody = []Sym{t[0], t[4]}, []Sym{t[0], t[4]}
+	}
+	top := &NTDef{Head: "S"}
+	first := []Sym{nt("P"), nt("L")}
+	if s.r.Intn(3) == 0 {
+		first = append(first, t[2])
+	}
+	second := []Sym{nt("Q"), nt("L"), t[3]}
+	if s.r.Intn(4) == 0 {
+		second = []Sym{nt("Q"), t[3], nt("L")} // the terminal tells them apart before the list
+	}
+	top.Alts = []SAlt{alt(first...), alt(second...)}
+	g := &Grammar{NTs: []*NTDef{top, {Head: "P", Alts: []SAlt{alt(pBody...)}}, {Head: "Q", Alts: []SAlt{alt(qBody...)}}, l}}
+	g.NTs = append(g.NTs, via...)
+	if s.r.Intn(2) == 0 {
+		// the list defined before its users
+		g.NTs = append([]*NTDef{g.NTs[0]}, append(append([]*NTDef{l}, via...), g.NTs[1:3]...)...)
+	}
+	return g
 }
 
 // deadNT: a nonterminal that derives no terminal string (an unfinished rule) declared early,
